@@ -165,11 +165,46 @@ Definition d_resetseq (args : list val) (obs : val) : verdict :=
   | _ => bad_case
   end.
 
+(* ObjectSetters: a script of SetX / SetY / SetZ / SetZoom / ResetExtendedSpatialID applied to one fresh object;
+   a command is VL [VS "X"; x] | [VS "Y"; y] | [VS "Z"; z] | [VS "Zoom"; h; v] | [VS "Reset"; s];
+   observed per step [error?; ID(); FieldParams(); [HZoom(); X(); Y(); VZoom(); Z()]] *)
+Definition dec_setter (v : val) : option setter :=
+  match v with
+  | VL [VS "X"; VZ x] => Some (SX x)
+  | VL [VS "Y"; VZ y] => Some (SY y)
+  | VL [VS "Z"; VZ z] => Some (SZ z)
+  | VL [VS "Zoom"; VZ h; VZ v] => Some (SZoom h v)
+  | VL [VS "Reset"; VS s] => Some (SReset s)
+  | _ => None
+  end.
+Definition obs_setter_step (v : val) : option (bool * string * list Z * list Z) :=
+  match v with
+  | VL [VB e; VS id; fp; acc] => match as_LZ fp, as_LZ acc with Some a, Some b => Some (e, id, a, b) | _, _ => None end
+  | _ => None
+  end.
+Definition d_setters (args : list val) (obs : val) : verdict :=
+  match args with
+  | [VL cmds] =>
+      match all_opt (map dec_setter cmds), as_L obs with
+      | Some l, Some outs =>
+          match all_opt (map obs_setter_step outs) with
+          | Some o =>
+              let m := map (fun st => (fst st, print_eid (snd st), field_params (snd st), field_params (snd st))) (run_setters zero_eid l) in
+              let c := forall2b (fun x y => let '(e, id, fp, acc) := x in let '(e', id', fp', acc') := y in
+                                            Bool.eqb e e' && String.eqb id id' && list_eqb Z.eqb fp fp' && list_eqb Z.eqb acc acc') m o in
+              mkv c (check_setters l o) "-" (VL (map (fun x => let '(e, id, fp, acc) := x in VL [VB e; VS id; of_LZ fp; of_LZ acc]) m))
+          | None => bad_case
+          end
+      | _, _ => bad_case
+      end
+  | _ => bad_case
+  end.
+
 Definition base_C10 : table :=
   [("ConvertSpatialIdsToExtendedSpatialIds", fun _ => d_s2e); ("ConvertExtendedSpatialIdsToSpatialIds", fun _ => d_e2s);
    ("NotationRoundTrip", fun _ => d_roundtrip); ("ParsePrint", fun _ => d_parseprint);
    ("ConvertExtendedSpatialIDToSpatialIDs", fun _ => d_expand); ("GetVoxelIDfromSpatialID", fun _ => d_voxel);
-   ("ResetSequence", fun _ => d_resetseq)].
+   ("ResetSequence", fun _ => d_resetseq); ("ObjectSetters", fun _ => d_setters)].
 
 (* ---- sequences of calls made one after the other inside one harness call (the API is stateless: every call must satisfy its own
         statement whatever was called before). A call is VL (VS function :: arguments); observed: the list of the observed outputs. ---- *)
